@@ -218,6 +218,8 @@ class Runner:
             self.op_set(op)
         elif name == "apply":
             self.op_apply(op)
+        elif name == "crash":
+            self.op_crash(op)
         else:
             raise ValueError(name)
         revs = self.check_state(name)
@@ -264,6 +266,25 @@ class Runner:
                 v, m["ooo"], v, w.rev_list()), {"before": before, "observed_revisions": revs})
         if m["pending"] != want:
             self.viol("set|pending-after-set", "after `migrate set %s` the documented decision is pending=%r, want every migration file > %s: %r" % (v, m["pending"], v, want), {"before": before, "observed_revisions": revs})
+
+    def op_crash(self, op):
+        """`migrate apply --tx-mode none` killed (SIGKILL from the verif hook) right after the revision write
+        that follows the j-th statement of the first pending file: the state a crash leaves — a partial
+        revision WITHOUT an error text. Later operations (status, apply, set) must treat it like any partial."""
+        w, ctx = self.w, self.ctx
+        if w.crash_target() is None:
+            return
+        v, done = w.crash(op["j"])
+        args = ["migrate", "apply"] + self.U + ["--tx-mode", "none", "--allow-dirty"]
+        rc, so, se = self.ctx.atlas_run(args, self.d, env={"VERIF_CRASH_AT": "rev.after:%d" % (1 + op["j"])})
+        self.trace[-1].update(rc=rc, killed_after=op["j"], file=v)
+        for fn in os.listdir(os.path.join(self.d, "tmp")):
+            if fn.endswith(".lock"):
+                os.remove(os.path.join(self.d, "tmp", fn))
+        if rc not in (-9, 137):
+            # the kill point was not reached (the binary has no hooks, or the run ended earlier): no observation
+            self.inconcl("crash-point-not-reached")
+        ctx.count("op:apply-killed-between-statements")
 
     def op_apply(self, op):
         w, ctx = self.w, self.ctx
